@@ -101,6 +101,13 @@ def rule1_acquire(ctx, v):
         else:
             ctx.ob('C04.1', 'myth_mutex_timedlock_body: failure code', c == ETIMEDOUT,
                    'the only failure code is ETIMEDOUT', loc=anchor.loc, detail='returns %s' % describe(f, val))
+            for t in trys:
+                tests = [br for ic in f.users(t.id) if ic.op == 'icmp' for cond, pol in lib.cond_chain(f, ic.id)
+                         for br, _t, _f in f.cond_edges(cond)]
+                ctx.ob('C04.1', 'myth_mutex_timedlock_body: no failure return after an unexamined try',
+                       not lib.reaches_point(f, t, anchor, blocked=tests),
+                       'a trylock that may have set the lock bit is examined before ETIMEDOUT can be returned (otherwise the '
+                       'mutex stays locked with no owner)', loc=t.loc)
     ctx.floor('C04.1', 12)
 
 
@@ -328,6 +335,9 @@ MUTANTS = [
     {'name': 'timedlock blocks on the mutex queue', 'expect': 'C04.4',
      'edits': [(SYNC, "      if (myth_mutex_trylock_body(mutex) == 0) {\n\treturn 0;\n      } else {\n\tmyth_yield_ex_body(myth_yield_option_local_first);",
                 "      if (myth_mutex_trylock_body(mutex) == 0) {\n\treturn 0;\n      } else {\n\tmyth_block_on_queue(mutex->sleep_q, 0);")]},
+    {'name': 'timedlock leaks an acquisition on timeout (seed C04/m3)', 'expect': 'C04.1',
+     'edits': [(SYNC, "      int err = hr_gettime(tp);\n      assert(err == 0);\n      if (myth_timespec_gt(tp, abstime)) return ETIMEDOUT;\n      if (myth_mutex_trylock_body(mutex) == 0) {\n\treturn 0;\n      } else {",
+                "      int got = myth_mutex_trylock_body(mutex);\n      int err = hr_gettime(tp);\n      assert(err == 0);\n      if (myth_timespec_gt(tp, abstime)) return ETIMEDOUT;\n      if (got == 0) {\n\treturn 0;\n      } else {")]},
     {'name': 'trylock yields while waiting', 'expect': 'C04.4',
      'edits': [(SYNC, "      return 0;\n    } else {\n      continue;\n    }\n  }\n}\n\n/* lock mutex.", "      return 0;\n    } else {\n      myth_yield_ex_body(myth_yield_option_local_first);\n      continue;\n    }\n  }\n}\n\n/* lock mutex.")]},
     {'name': 'sleep queue deq returns without unlocking when empty', 'expect': 'C04.5',
